@@ -229,6 +229,12 @@ func c16RenderB(eng any, p c16Prog, entry string, real bool, boom bool) (string,
 			err = eng.(vuego.Template).New().Fill(data()).RenderFile(context.Background(), &buf, "page.vuego")
 		case "RenderString":
 			err = eng.(vuego.Template).New().Fill(data()).RenderString(context.Background(), &buf, c16Src("page.vuego", p.files["page.vuego"], real))
+		case "VueRenderNodes": // the caller parses the page itself and hands the nodes over
+			var nodes []*html.Node
+			nodes, err = html.ParseFragment(strings.NewReader(c16Src("page.vuego", p.files["page.vuego"], real)), &html.Node{Type: html.ElementNode, Data: "body", DataAtom: atom.Body})
+			if err == nil {
+				err = eng.(*vuego.Vue).RenderNodes(&buf, nodes, data())
+			}
 		}
 	}()
 	return buf.String(), err
@@ -341,7 +347,7 @@ func init() { streams["C16"] = runC16 }
 func runC16(r *Run) {
 	r.Imports = []string{"Model.Once"}
 	r.Rule("programs with v-once elements at top level, nested in one another, inside v-for over 2-3 items, inside components included 1..n times (also from loops and from other components), in two different components and in a layout; " +
-		"every entry point (Vue.Render, Vue.RenderFragment, Load().Render and RenderFile with and without a layout, RenderString); each program rendered twice on one engine, then once more after a render of the same page that fails at its very end; " +
+		"every entry point (Vue.Render, Vue.RenderFragment, Vue.RenderNodes on nodes the caller parsed, Load().Render and RenderFile with and without a layout, RenderString); each program rendered twice on one engine, then once more after a render of the same page that fails at its very end; " +
 		"the expanded forest comes from rendering the same program with v-once renamed to a marker attribute; (shorthand) pages of nested component includes with v-once, v-for, v-if, bound attributes and slot content on the include itself, written once as <template include> and once as registered shorthand tags: the two must render the same bytes; non-trivial: some marked element is instantiated >= 2 times or >= 2 marked elements exist")
 	r.Assume("the keys written by the harness (file#element, prefixed by the layout link) identify source elements; the model is told nothing about the implementation's own id scheme")
 	c16ShortLong(r)
@@ -350,7 +356,7 @@ func runC16(r *Run) {
 	if r.Thorough() {
 		n = 20000
 	}
-	entries := []string{"VueRender", "VueFragment", "LoadRender", "RenderFile", "RenderString"}
+	entries := []string{"VueRender", "VueFragment", "LoadRender", "RenderFile", "RenderString", "VueRenderNodes"}
 	for c := 0; c < n; c++ {
 		g := &c16Gen{r: rr}
 		p := c16Prog{files: map[string][]*c16El{}}
